@@ -73,6 +73,7 @@ def roundTrip (p : Profile) (loc rem : List Cap) (m : Msg) : Out (List (Bytes ×
   let peer := negotiate rem loc
   match encodeTo p enc m with
   | .panic => .panic
+  | .err => .err
   | .ok frames =>
       let fam : Fam := match m with
         | .reach f .. => f
@@ -149,11 +150,14 @@ def reTrip (p : Profile) (loc rem : List Cap) (ms : List Msg) : Out (List DRes) 
     | [] => .ok []
     | m :: rest => match encodeTo p enc m with
       | .panic => .panic
+      | .err => .err
       | .ok frs => match go rest with
         | .panic => .panic
+        | .err => .err
         | .ok l => .ok (frs.map (fun x => (x.1, x.2, m)) ++ l)
   match go ms with
   | .panic => .panic
+  | .err => .err
   | .ok frs =>
       -- opaque decoder table over all messages
       let table : List (Bytes × ODec) := ms.flatMap (fun m =>
@@ -162,7 +166,7 @@ def reTrip (p : Profile) (loc rem : List Cap) (ms : List Msg) : Out (List DRes) 
             let fam : Fam := match m with | .reach f .. => f | .unreach f _ => f | _ => Fam.ipv4
             let ap := enc.addpathTx fam
             (slices m.entries (fr.map (·.2))).map (fun sl => (regionOf ap sl, combineProbes ap sl))
-        | .panic => [])
+        | _ => [])
       let od : OpaqueDec := fun _ _ bs => match table.find? (fun x => x.1 == bs) with
         | some x => x.2
         | none => .err
@@ -179,6 +183,7 @@ def fixedPoint (p : Profile) (loc rem : List Cap) : List DRes → List Entry →
       else
       match reTrip p loc rem (toMsgs q sl) with
       | .panic => .panic
+      | .err => .ok false          -- `enc2.encode_to(m).is_err()`: the decoded value does not re-encode
       | .ok d2 =>
           if d2.all DRes.clean && d2 == [.msg q] then fixedPoint p loc rem rest (es.drop n)
           else .ok false
@@ -187,12 +192,14 @@ def fixedPoint (p : Profile) (loc rem : List Cap) : List DRes → List Entry →
 def run (p : Profile) (i : Input) : Obs :=
   match roundTrip p i.loc i.rem i.msg with
   | .panic => .panic
+  | .err => .err
   | .ok (frames, dec) =>
       let fp : Fp :=
         if dec.all DRes.clean then
           match fixedPoint p i.loc i.rem dec i.msg.entries with
           | .ok true => .t
           | .ok false => .f
+          | .err => .f
           | .panic => .panic
         else .na
       .obs frames.length (frames.flatMap (·.1)) dec fp
